@@ -91,10 +91,15 @@ fn slot_case(rng: &mut Rng, out: &mut CaseOut, multiround: bool) {
     let mut size = first_size;
     for round in 0..rounds {
         if round > 0 {
-            size = pick_size(rng);
-            if let Err(e) = enc.reset(k, r, size).and(dec.reset(k, r, size)) {
-                out.violate("C04:reset-failed", format!("k={k} r={r} size={size}: {e}"));
-                return;
+            if rng.chance(1, 2) {
+                // same size again, no reset: dropping the result started the new round
+                out.tag("round-after-implicit-reset");
+            } else {
+                size = pick_size(rng);
+                if let Err(e) = enc.reset(k, r, size).and(dec.reset(k, r, size)) {
+                    out.violate("C04:reset-failed", format!("k={k} r={r} size={size}: {e}"));
+                    return;
+                }
             }
         }
         let desc = format!(
